@@ -1146,3 +1146,10 @@ v("d137-sqlite-builtin-round", "C05", SQ, "            \"round\": functools.part
 v("d138-project-accepts-row-wise-methods", "C26", VR, "                    not in data_algebra.expr_rep.fn_names_that_contradict_ordered_windowed_situation\n                ):\n                    # an operator or a row-wise method (-x,", "                    in set()\n                ):\n                    # an operator or a row-wise method (-x,")
 
 v("d138-window-accepts-row-wise-methods", "C26", VR, "                    not in data_algebra.expr_rep.fn_names_of_window_functions\n                ):", "                    in set()\n                ):")
+
+v("d139-and-or-object-result", "C05", PB, "            return self.pd.Series(a).astype(\"boolean\")", "            return self.pd.Series(a).astype(object)")
+v("d140-condition-filled-with-bool", "C05", PB, "            return cond.to_numpy(dtype=bool, na_value=False)", "            return cond.fillna(False).to_numpy(dtype=bool)")
+v("d141-not-is-identity", "C05", PB, "    return a == False\n", "    return a != False\n")
+v("d142-function-form-direct", "C13", PBLK, "                        return getattr(args[0], op_name)(*args[1:])\n", "                        pass\n")
+v("d143-argument-placeholder-walked", "C13", PBLK, "                    args = [_r_walk_lark_tree(ai) for ai in raw_args if ai is not None]", "                    args = [_r_walk_lark_tree(ai) for ai in raw_args]")
+v("d144-list-items-raw", "C12", ER2, "        self.value = [vi if isinstance(vi, PreTerm) else Value(vi) for vi in value]", "        self.value = list(value)")
